@@ -52,8 +52,17 @@ def main():
                 cases += mod.generate(rng, tier)
             outs = mod.run_impl(cases) if hasattr(mod, "run_impl") else C.run_harness(pid, cases)
             # ---------------------------------------------------- model evaluation
-            idx = [i for i in range(len(cases)) if mod.coq_term(cases[i], outs[i]) is not None]
-            terms = [mod.coq_term(cases[i], outs[i]) for i in idx]
+            def term_of(i):
+                # a case whose implementation output cannot be rendered as a Gallina term (NaN where the model takes a
+                # number, say) is left to the property oracle; it must not take the whole correspondence down
+                try:
+                    return mod.coq_term(cases[i], outs[i])
+                except Exception as ex:
+                    notes.append("case %d: no model term (%s)" % (i, ex))
+                    return None
+            term_cache = {i: term_of(i) for i in range(len(cases))}
+            idx = [i for i in range(len(cases)) if term_cache[i] is not None]
+            terms = [term_cache[i] for i in idx]
             model = [None] * len(cases)
             if getattr(mod, "DIGEST", False):
                 # model outputs are compared through a digest computed inside Coq; cases whose
